@@ -201,7 +201,7 @@ theorem h8_logonFixMsgIn (g0 : G8) (s : Sess) (m : InMsg) (hl : s.st.isLogon = t
       rcases logonFinish_spec x m n hn with h | ⟨a, b, h⟩
       · rw [h]
         dsimp only
-        exact logon_done g0 s x _ _ hl hx hready rfl (hy.trans (fr_incrTarget _)) (by rw [(sil_incrTarget _).g8 g0, hgy]) (Or.inl rfl)
+        exact logon_done g0 s x _ _ hl hx (fun hW => hready hW (SState.logon_not_loggedOn _ hl)) rfl (hy.trans (fr_incrTarget _)) (by rw [(sil_incrTarget _).g8 g0, hgy]) (Or.inl rfl)
       · rw [h]
         dsimp only
         generalize hyy : ((x.setSentReset false).emit (.armPeer (1200 * x.hb))).emit .onLogon = y at hy hgy
@@ -221,7 +221,7 @@ theorem h8_logonFixMsgIn (g0 : G8) (s : Sess) (m : InMsg) (hl : s.st.isLogon = t
         obtain ⟨ff, hff⟩ := sendResendRequest_is y b (a - 1)
         obtain ⟨f1, f2, f3⟩ := hsp (mkOut "2" ff) rfl (appFirst_admin _ rfl)
         rw [← hff] at f1 f2 f3
-        refine logon_done g0 s x _ _ hl hx hready rfl (hy.trans f1) (by rw [f2, hgy]) ?_
+        refine logon_done g0 s x _ _ hl hx (fun hW => hready hW (SState.logon_not_loggedOn _ hl)) rfl (hy.trans f1) (by rw [f2, hgy]) ?_
         rw [← hyq]; exact f3
 
 /-! ## 9. what `setState` is handed: handler outcomes with the real next state -/
